@@ -394,7 +394,7 @@ Problems28(o) ==
 BodyFlip(o) == o.kind = "flip" /\ o.pos \in {3, 4, 5}
 Tamper32(o) ==
   o.fired /\ o.rtype \in {22, 23}
-  /\ (BodyFlip(o) \/ o.kind \in {"drop", "garbage", "shorten", "lengthen"} \/ (o.kind = "insert" /\ o.sub = "junk-handshake")
+  /\ (BodyFlip(o) \/ o.kind \in {"drop", "garbage", "shorten", "lengthen", "zeros"} \/ (o.kind = "insert" /\ o.sub = "junk-handshake")
       \* a duplicate is only noticed if the receiver reads on: certain for handshake-typed records
       \/ (o.kind = "dup" /\ o.rtype = 22))
 
